@@ -1,4 +1,304 @@
-def check(run):
-    pass
-def replay(r):
-    return []
+"""C18 — binding to the orchestrator (clematis.engine.orchestrator.core.run_turn): the graph_enabled gate
+and the sequencing observe -> tick -> merge / split / promotion passes.
+
+(S->C)  every Turn(items, flags) transition of the Gel model is executed as ONE real engine turn: the
+       retrieval is scripted through the documented `orchestrator.t2_semantic` seam, log records are
+       captured through `orchestrator.append_jsonl`; the GEL store after the turn is compared with the
+       spec, the gel.jsonl records with the spec's counts; with graph.enabled=false the store must be
+       untouched and no gel record may appear, whatever the maintenance switches say.
+(C->S)  sessions of consecutive real turns with random float configurations; the gel functions bound in
+       the orchestrator's namespace are wrapped (harness side) so that the store is recorded after every
+       stage; the recordings are validated by GelTrace like the direct histories.
+"""
+from __future__ import annotations
+
+import copy
+import json
+import os
+from types import SimpleNamespace
+from typing import Any, Dict, List, Tuple
+
+from ..util import Def, make_cfg, pmap, rng, split_defs
+
+_WD = {"dir": None}
+
+
+class AD(dict):
+    """dict with attribute access (what run_smoke_turn builds from a validated config)"""
+
+    def __getattr__(self, k):
+        try:
+            return self[k]
+        except KeyError as e:
+            raise AttributeError(k) from e
+
+    def __setattr__(self, k, v):
+        self[k] = v
+
+
+def ad(o):
+    if isinstance(o, dict):
+        return AD({k: ad(v) for k, v in o.items()})
+    if isinstance(o, list):
+        return [ad(v) for v in o]
+    return o
+
+
+def _env(tag: str) -> str:
+    d = os.path.join(_WD["dir"] or "/verif/.work/C18", "turns", f"{tag}_{os.getpid()}")
+    os.makedirs(d, exist_ok=True)
+    os.environ["CLEMATIS_LOG_DIR"] = os.path.join(d, "logs")
+    os.environ["CLEMATIS_SNAPSHOT_DIR"] = os.path.join(d, "snaps")
+    os.environ["CI"] = "true"
+    os.chdir(d)
+    return d
+
+
+def _full_cfg(graph: Dict[str, Any], d: str) -> AD:
+    from configs.validate import validate_config
+    return ad(validate_config({"t4": {"snapshot_dir": os.path.join(d, "snaps")}, "graph": copy.deepcopy(graph)}))
+
+
+def run_real_turn(graph: Dict[str, Any], state: Dict[str, Any], items: List[Tuple[str, float]], turn_id: str, d: str):
+    """one real run_turn with a scripted retrieval; -> captured (stream, record) list"""
+    import clematis.engine.orchestrator as orch
+    from clematis.engine.orchestrator import core
+    from clematis.engine.types import EpisodeRef, T2Result
+    logs: List[Tuple[str, Dict[str, Any]]] = []
+    old = (orch.append_jsonl, orch.t2_semantic)
+
+    def fake_t2(ctx, st, text, t1):
+        return T2Result(retrieved=[EpisodeRef(id=i, owner="A", score=s, text=f"episode {i}") for i, s in items],
+                        graph_deltas_residual=[], metrics={"k_returned": len(items), "k_used": len(items)})
+
+    orch.append_jsonl = lambda name, rec: logs.append((name, rec))
+    orch.t2_semantic = fake_t2
+    try:
+        ctx = SimpleNamespace(turn_id=turn_id, agent_id="A", now=None, now_ms=0, cfg=_full_cfg(graph, d))
+        core.run_turn(ctx, state, "hello")
+    finally:
+        orch.append_jsonl, orch.t2_semantic = old
+    return logs
+
+
+def replay_turn(case) -> List[Tuple[str, Dict[str, Any], str]]:
+    from . import c18
+    consts, t = case
+    nm = c18.names(consts["NN"], consts["NLow"])
+    c, obs, on = t["cfg"], t["obs"], t["gate"]
+    fm, fs, fp = obs["flags"]
+    g = c18.graph_cfg(c, on, 1)
+    if g is None:
+        return [("__rejected__", {}, "config not accepted by the validator")]
+    g["merge"]["enabled"], g["split"]["enabled"], g["promotion"]["enabled"] = bool(fm), bool(fs), bool(fp)
+    d = _env("sc")
+    state = c18.build_state(t["pre"], nm)
+    state.update({"version_etag": "0", "_boot_loaded": True})
+    pre = copy.deepcopy(state["graph"])
+    items = [(nm[i], c18.fl(s)) for i, s in obs["items"]]
+    fails: List[Tuple[str, Dict[str, Any], str]] = []
+    try:
+        logs = run_real_turn(g, state, items, "7", d)
+    except Exception as e:       # a turn must complete (C20); here it is simply a failed binding
+        return [("TurnBinding", {"cause": "turn-raised"}, f"run_turn raised {type(e).__name__}: {e}")]
+    gel = [r for n, r in logs if n == "gel.jsonl"]
+    if not on:
+        if state.get("graph") != pre:
+            fails.append(("GateOffUntouched", {"cause": "state-touched"},
+                          f"run_turn with graph.enabled=false (merge/split/promotion enabled={fm, fs, fp}) changed state.graph: {c18._diff({'graph': pre}, state)}"))
+        if gel:
+            fails.append(("GateOffUntouched", {"cause": "gel-logged"}, f"run_turn with graph.enabled=false wrote gel records {gel}"))
+        return fails
+    lo, hi = c["lo"] / c18.D, c["hi"] / c18.D
+    for msg in c18.canonical_keys(state["graph"]["edges"]):
+        fails.append(("OneEdgePerUnorderedPair", {"cause": "non-canonical-key"}, f"after a turn: {msg}"))
+    got_e, exp_e = c18.alpha_edges(state), c18.want_edges(t["post"], nm)
+    if got_e != exp_e:
+        bad = [k for k, v in got_e.items() if v[2] == "coact" and not (lo <= v[3] <= hi)]
+        pre_ok = not c18.within_clamp(pre["edges"], lo, hi)
+        exp_bad = [k for k, v in exp_e.items() if v[2] == "coact" and not (lo <= v[3] <= hi)]
+        if bad and pre_ok and not exp_bad:
+            fails.append(("WithinClamp", {"cause": "turn-outside-clamp"}, f"after a turn: {bad[0]} = {got_e[bad[0]][3]} outside [{lo}, {hi}]"))
+        fails.append(("TurnSequencing", {"cause": "post-state-differs"}, f"after a turn with items {items} flags {fm, fs, fp}: edges {c18._ediff(got_e, exp_e)} (got vs spec)"))
+    if set(state["graph"]["nodes"]) != {nm[r] for r in t["post"]["nodes"]}:
+        fails.append(("MaintenanceOnlyAnnotatesOrAttaches", {"cause": "nodes-differ"},
+                      f"after a turn: nodes {sorted(state['graph']['nodes'])}, spec says {sorted(nm[r] for r in t['post']['nodes'])}"))
+    meta = state["graph"]["meta"]
+    if meta.get("merges") != [c18.merge_rec(m, nm) for m in t["post"]["merges"]] or \
+            [dict(s, parts=sorted(s["parts"])) for s in meta.get("splits", [])] != [c18.split_rec(s, nm) for s in t["post"]["splits"]]:
+        fails.append(("MaintenanceRecords", {"cause": "meta-differs"}, f"after a turn: meta {meta.get('merges')} / {meta.get('splits')} differ from the spec"))
+    # log records: observe, decay, maintenance (only when a pass is switched on), in this order
+    want = ["observe_retrieval", "edge_decay"] + (["maint"] if (fm or fs or fp) else [])
+    kinds = [r.get("event") or ("maint" if "merge_attempts" in r else "?") for r in gel]
+    if kinds != want:
+        fails.append(("TurnSequencing", {"cause": "gel-records"}, f"gel.jsonl records {kinds}, expected {want}"))
+    else:
+        o, dcy = gel[0], gel[1]
+        if (o["k_in"], o["k_used"], o["pairs_updated"]) != (len(items), obs["kused"], obs["pairs"]):
+            fails.append(("ObserveOnlyTopKAboveThreshold", {"cause": "selection-differs"},
+                          f"turn: observe record {o}, spec k_used={obs['kused']} pairs={obs['pairs']}"))
+        if o["pairs_updated"] > c["cap"]:
+            fails.append(("ObserveAtMostPairCap", {"cause": "cap-exceeded"}, f"turn: pairs_updated {o['pairs_updated']} > {c['cap']}"))
+        if dcy["dropped_edges"] != obs["dropped"]:
+            fails.append(("TickDropsExactlyBelowFloor", {"cause": "drop-count"}, f"turn: dropped_edges {dcy['dropped_edges']}, spec {obs['dropped']}"))
+        if len(gel) == 3:
+            m = gel[2]
+            got = (m["merge_attempts"], m["merge_applied"], m["split_attempts"], m["split_applied"], m["promotion_applied"])
+            exp = (obs["mcands"], obs["mapplied"], obs["scands"], obs["sapplied"], obs["papplied"])
+            if got != exp:
+                fails.append(("TurnSequencing", {"cause": "maintenance-counts"}, f"turn: maintenance record {got}, spec {exp}"))
+    return fails
+
+
+# ------------------------------------------------------------------------------------------------
+# sessions of real turns, recorded per stage (C->S)
+# ------------------------------------------------------------------------------------------------
+def gen_session(args) -> Dict[str, Any]:
+    from clematis.engine.orchestrator import core
+    from . import c18_traces as T
+    seed, tidn, turns, tol = args
+    r = rng(seed, "gel-session", tidn)
+    gcfg = T.draw_config(r)
+    for k in ("merge", "split", "promotion"):
+        gcfg[k]["enabled"] = r.random() < 0.7
+    ids = r.sample([x for x in T.POOL if x], r.choice([3, 4, 6]))
+    rank = T.universe(T.POOL)
+    upd, dec = gcfg["update"], gcfg["decay"]
+    c = {"lo": T.enc(upd["clamp_min"]), "hi": T.enc(upd["clamp_max"]), "floor": T.enc(dec["floor"]),
+         "thr": T.enc(gcfg["coactivation_threshold"]), "topk": min(int(gcfg["observe_top_k"]), 100000),
+         "cap": min(int(gcfg["pair_cap_per_obs"]), 100000), "tol": list(tol)}
+    d = _env("cs")
+    state: Dict[str, Any] = {"version_etag": "0", "_boot_loaded": True}
+    from clematis.engine import gel
+    gel._ensure_graph_store(state)
+    ev: List[Dict[str, Any]] = [dict(T.snapshot(state, rank), op="init", gate=True)]
+    cur = {"items": []}
+    names = ("gel_observe", "gel_tick", "gel_apply_merge", "gel_apply_split", "gel_apply_promotion")
+    saved = {n: getattr(core, n) for n in names}
+
+    def wrap(n, op):
+        real = saved[n]
+
+        def w(ctx, st, *a, **kw):
+            out = real(ctx, st, *a, **kw)
+            e = dict(T.snapshot(st, rank, ev[-1]["ml"]), op=op, gate=True)
+            if op == "observe":
+                e.update(items=[[rank[i], T.enc(s)] for i, s in cur["items"]], pairs=int(out["pairs_updated"]),
+                         kused=int(out["k_used"]), permok=True)
+            if op == "tick":
+                e.update(dt0=False, half=(int(dec["half_life_turns"]) == 1))
+            ev.append(e)
+            return out
+        return w
+
+    for n, op in zip(names, ("observe", "tick", "merge", "split", "promote")):
+        setattr(core, n, wrap(n, op))
+    try:
+        for k in range(turns):
+            on = r.random() < 0.8
+            n = r.choice([0, 2, 3, 3, 4, 5])
+            cur["items"] = [(r.choice(ids), r.choice([0.2, 0.5, 0.9, 1.0, 0.0]) if r.random() < 0.3 else r.random()) for _ in range(n)]
+            before = len(ev)
+            run_real_turn(dict(gcfg, enabled=on), state, cur["items"], str(k + 1), d)
+            if not on:
+                if len(ev) != before:
+                    ev.append(dict(ev[-1], op="gated-call", gate=True))      # a gel function ran behind a closed gate
+                ev.append(dict(T.snapshot(state, rank, ev[-1]["ml"]), op="turn", gate=False))
+            elif any(x.get("r") == 0 for x in ev[-1]["nodes"]):
+                break                                                        # nested concept ids beyond the logged universe
+    finally:
+        for n in names:
+            setattr(core, n, saved[n])
+    return {"tid": tidn, "c": c, "ev": ev, "cfg": gcfg}
+
+
+def check(run) -> None:
+    from ..tlc import TLCError
+    from . import c18, c18_traces as T
+    _WD["dir"] = run.workdir
+    q = run.quick
+    D = c18.D
+    # ---- S->C: Turn transitions of the model as real engine turns ---------------------------------
+    chain4 = c18.graph_def({(1, 2): D // 2, (2, 7): D // 4, (7, 8): D // 2, (1, 7): D})
+    consts = c18.base_consts(NN=4, Modes=["additive"], AlphaDens=[2], Clamps=c18.clamp_def([(-D, D)] if q else c18.CLAMPS_0),
+                             Floors=[D // 4], Thresholds=[D // 2], TopKs=[3], PairCaps=[2] if q else [2, 64],
+                             Maints=Def(c18.tla_set([c18.M1] if q else [c18.M1, c18.M2])),
+                             InitGraphs=Def(c18.tla_set(["<<>>", chain4])), ItemIds=c18.seq_def([1, 2, 7]),
+                             Scores=c18.seq_def([D] if q else [D // 4, D]), MaxItems=2 if q else 3, Ops=["turn"], InitGates=[True, False],
+                             MaxDepth=1 if q else 2)
+    res = c18.tlc_retry(run, "Gel", make_cfg(consts, c18.INVS, c18.PROPS, spec="SpecD"), name="turns", workers=8, timeout_s=900,
+                        defs=split_defs(consts))
+    run.model_must_hold(res)
+    small = {"NN": 4, "NLow": 2}
+    cases = [(small, t) for t in res.emitted if t["obs"]["op"] == "turn"]
+    outs = pmap(replay_turn, cases, chunk=8)
+    for (cst, t), fails in zip(cases, outs):
+        if fails and fails[0][0] == "__rejected__":
+            run.guarded_out += 1
+            continue
+        run.traces += 1
+        run.case(("turn", json.dumps(t, sort_keys=True)))
+        if not fails:
+            run.ok("Gel.turn.conforms" if t["gate"] else "Gel.turn.gate_off_untouched")
+        for clause, sig, msg in fails:
+            run.fail(clause, dict(sig, clause=clause), {"family": "turn", "transition": t}, f"engine turn: {msg}",
+                     replay={"family": "turn", "constants": cst, "transition": t})
+    if cases:
+        pick = [x for x in cases if x[1]["gate"] and x[1]["obs"]["papplied"]] or cases
+        run.sample({"family": "turn", "transition": pick[0][1]}, cap=12)
+    # ---- C->S: sessions of real turns ------------------------------------------------------------------
+    n, turns = (12, 8) if q else (400, 12)
+    tol = sorted(e["signature"].get("cause") for e in run.known
+                 if e.get("status") == "open" and e["signature"].get("clause") == "WithinClamp" and e["signature"].get("cause"))
+    args = [(run.seed, 100000 + i, turns, tuple(tol)) for i in range(n)]
+    traces = pmap(gen_session, args, procs=None if not q else 4, chunk=1)
+    cfgs = {t["tid"]: t.pop("cfg") for t in traces}
+    ctl = None
+    for t in traces:
+        ctl = T.corrupt(t, "gate", -11) or ctl
+        if ctl:
+            break
+    if ctl is None:
+        ctl = T.corrupt(traces[0], "key", -11) or T.corrupt(traces[0], "tick-grew", -11)
+    if ctl is None:
+        raise TLCError("no session offers a place for a negative control")
+    v = run.validate_traces("GelTrace", {}, traces + [ctl], name="GelTrace_sessions", timeout_s=1500)
+    if v[ctl["tid"]][0] == "ok":
+        raise TLCError("GelTrace accepted the negative control of the turn sessions")
+    run.ok("GelTrace.negative_control_rejected.session")
+    for t in traces:
+        verdict, pos = v[t["tid"]]
+        run.traces += 1
+        run.case(("gelsession", t["tid"]))
+        if verdict == "ok":
+            run.ok("GelTrace.session_accepted")
+            continue
+        clause, _, cause = verdict.partition(":")
+        e = t["ev"][pos - 1] if 0 < pos <= len(t["ev"]) else None
+        cfgd = cfgs[t["tid"]]
+        run.fail(clause, {"clause": clause, "cause": cause},
+                 {"tid": t["tid"], "position": pos, "graph_config": cfgd, "event": T._brief(e), "previous": T._brief(t["ev"][pos - 2]) if pos >= 2 else None},
+                 f"session of real turns {t['tid']} (update={cfgd['update']} decay={cfgd['decay']}): event {pos} ({e['op'] if e else '?'}) rejected by GelTrace: {verdict}",
+                 replay={"family": "turn.session", "args": [run.seed, t["tid"], turns, list(tol)]})
+
+
+def replay(r) -> List[Tuple[str, str]]:
+    _WD["dir"] = "/verif/.work/C18_replay"
+    if r["family"] == "turn":
+        return [(c, m) for c, _s, m in replay_turn((r["constants"], r["transition"]))]
+    from .. import tlc as _tlc
+    from . import c18_traces as T
+    seed, tidn, turns, tol = r["args"]
+    t = gen_session((seed, tidn, turns, tuple(tol)))
+    t.pop("cfg")
+    wd = "/verif/.work/C18_replay"
+    os.makedirs(wd, exist_ok=True)
+    path = os.path.join(wd, "session.ndjson")
+    with open(path, "w") as f:
+        f.write(json.dumps(t, separators=(",", ":")) + "\n")
+    res = _tlc.run_tlc("GelTrace", "SPECIFICATION TraceSpec\nPOSTCONDITION Done\n", wd, name="GelTrace_replay", workers=1,
+                       env={"TRACE_FILE": path})
+    verdict, pos = res.verdicts.get(tidn, ("no-verdict", 0))
+    if verdict == "ok":
+        return []
+    return [(verdict.partition(":")[0], f"session {tidn}: event {pos} {T._brief(t['ev'][pos - 1]) if pos else ''} rejected: {verdict}")]
